@@ -25,7 +25,7 @@ RULE = ('(a) enumeration: 8 array kinds (literal, dynamic VLA, bool VLA, const s
         'for/while x 5 nesting shapes x 4 try placements, run for n = 1, 2, 7 iterations and as twins n=3 / n=40 whose peak ap must agree; '
         '(b) random memory-profile and time-travel programs under M-BAL/M-SAN; non-trivial = an array was live at an abrupt exit '
         '(enumeration: by construction; random: the run executed a break/continue/stop handler/early return with ap above the stack base); '
-        'distinct by hash of (source, args)')
+        '(c) the scale grids of gen/scale.py: nesting depth 3-10 x 4 exit routes x literal/dynamic arrays, locals spread over nested blocks, 9-34 try blocks and 9-111 loops per program, checked and unchecked, under M-BAL / M-SAN / M-DIFF; distinct by hash of (source, args)')
 ASSUMPTIONS = common.ISA_ASSUMPTIONS[:3] + ['observation points are the labels the compiler always emits (loop_N, continue_N, break_N, end_call_N, try_handler_N)']
 REQUIRED_HIDC_FUNCTIONS = ['codegen/generator:CodeGen.reset_ap', 'codegen/generator:CodeGen.pop']     # M-COV: deciding code never entered => inconclusive
 MIN_NONTRIVIAL = {'quick': 300, 'thorough': 3000}
@@ -42,6 +42,7 @@ def plan(tier, seed):
     n, per = (8, 16) if tier == 'quick' else (48, 60)
     for s in common.shard_seeds(seed, n):
         specs.append({'kind': 'gen', 'seed': s, 'count': per})
+    specs += [{'kind': 'scale', 'part': i, 'parts': 4, 'tier': tier} for i in range(4)]
     return specs
 
 
@@ -84,6 +85,17 @@ def judge(res, src, lines, args, word, tag):
 def run_shard(spec):
     res = runner.new_result()
     CompilerError, _ = env.compiler_error_types()
+    if spec['kind'] == 'scale':
+        # nesting depth 3-10 x exit route x array kind, frames of many locals spread over nested blocks, 9-34 try blocks in a row: (fp, ap)
+        # at every loop head / continue / break / call return / handler (M-BAL), release rules of M-SAN, model output (M-DIFF)
+        for k, tag, prog, argsets in common.scale_items(('nesting', 'locals', 'tries', 'labels')):
+            if k % spec['parts'] != spec['part'] or (tag.startswith('scale-locals') and '/flat/' in tag):
+                continue
+            for unchecked in (False, True):
+                for args in (argsets if spec['tier'] != 'quick' else argsets[:1]):
+                    if common.check_scale(res, prog, args, (2, 3, 4, 8)[(k // spec['parts']) % 4], tag, unchecked=unchecked, monitors=('bal', 'san')):
+                        runner.count(res, 'scale_runs_balanced')
+        return res
     if spec['kind'] == 'enum':
         for i, (tag, src, abrupt) in enumerate(scopes.programs()):
             if i % spec['parts'] != spec['part'] or (i // spec['parts']) % spec['stride'] != spec['offset']:
